@@ -80,7 +80,8 @@ CLAIMED = {
         text='Rule soundness, one theorem per rewrite of optimize, each against an arbitrary literal-respecting evaluator of the sub-terms: '
              'and_fold/and_rule, or_fold/or_rule (folding over the leading run of literals decides exactly like the evaluation, same state), '
              'if_rule3/if_rule2, do_rule, add_rule_num, add_rule_str, mul_rule_int_partial, quote_untouched, atom_untouched, evalStep_lit, and '
-             'the rewrite step composed with one evaluator layer (optimize_and_partial, optimize_or_partial). Correspondence and search: every '
+             'the rewrite step composed with one evaluator layer (optimize_and_partial, optimize_or_partial), case_key_untouched (the key of a case clause is data: '
+             'left as written - the defect found by this check and repaired). Correspondence and search: every '
              'generated program runs with and without the pass (without and with resolve) on fresh interpreters and on the model; oracle = '
              'result+type, stdout, variables, trace index with vs without the pass on the implementation.',
         ref='DESIGN.md §6 C08', note='The global preservation theorem (congruence through every operator, closure bodies) is not proved; it is covered by the with/without '
@@ -91,11 +92,14 @@ CLAIMED = {
              '(operands left to right, each exactly once, state threaded), fn_captures_definition_env, call_frame (body runs in a fresh frame '
              'under the captured environment; arguments evaluated first, in the caller), call_env_restored, let_sequential, let_vanishes, '
              'define_current_frame, set_nearest, bound_reads, and the four error laws (unbound_errors, set_undefined_errors, redefine_errors, '
-             'arity_errors). Correspondence: generated core-calculus programs through the full pipeline (Wal.eval) and the bare evaluator vs the '
+             'arity_errors). Global, by induction on the fuel through every operator of the model (Lemmas/Global.lean, Lemmas/Mono.lean): '
+             'eval_restores_env / eval_frames_grow (every completed evaluation of every expression ends in the environment it started in and only '
+             'grows the frame heap), more_fuel_same_result / evaluation_deterministic (the fuel of the model is not observable: evaluation is a '
+             'function of state and expression). Correspondence: generated core-calculus programs through the full pipeline (Wal.eval) and the bare evaluator vs the '
              'model; search oracle = an independent textbook reference evaluator (harness/gen_prog.py::Ref): result, stdout, final globals per form.',
-        ref='DESIGN.md §6 C06', note='The reference evaluator and the Lean model are two independent renderings of lexical scoping; the global statement (all programs) is by '
-             'differential execution, the theorems are local laws. First-class macros at run time are outside the model (unsupported).',
-        technique='Lean 4 proof (operator-level binding/order/error laws) + differential against model and reference evaluator'),
+        ref='DESIGN.md §6 C06', note='The reference evaluator and the Lean model are two independent renderings of lexical scoping; agreement with the reference on all programs is by '
+             'differential execution; proved globally are the environment/heap invariant and fuel independence, the binding laws are operator-level. First-class macros at run time are outside the model (unsupported).',
+        technique='Lean 4 proof (operator-level binding/order/error laws; global invariant and monotonicity by induction on fuel over all operators) + differential against model and reference evaluator'),
     'C07': dict(
         text='On the real frame heap of the model (parent pointers, several names per frame): findFrame_fuel, find_skip, find_hop / read_hop / '
              'write_hop (hopping over frames that do not bind x is invisible to the dynamic walk), resolved_read_eq_dynamic and '
@@ -103,10 +107,12 @@ CLAIMED = {
              'assignments), lookupSteps_sound (the pass annotates with the nearest static scope that knows the name, only if defined there), '
              'announced_stays_dynamic, reaches_announced / reachable_define_stays_dynamic (every define that evaluation can execute in the frame - statement, do block or operand of any '
              'form at any depth - is announced by predefine and is never resolved statically before it has been passed), case_key_untouched, '
-             'resolve_symbol_only_annotates, resolve_refuses_only_upfront, double_define_refused. Correspondence and '
+             'resolve_symbol_only_annotates, resolve_refuses_only_upfront, double_define_refused; heap_ok_invariant / heap_ok_pipeline (well-formedness of '
+             'the frame heap - parents allocated before children, current environment allocated - is an invariant of every evaluation, by induction on '
+             'the fuel through every operator) and resolved_read_eq_dynamic_reachable (the cell-identity lemma with its heap premises discharged for every reachable state). Correspondence and '
              'search: twin interpreters expand->optimize->resolve->eval vs expand->optimize->eval on generated programs (incl. std macros, eval of '
              'quoted code), plus the reference evaluator as second opinion.',
-        ref='DESIGN.md §6 C07', note='The global preservation theorem (run-time invariant static scopes = parent chain through every operator) is proved on the prototype calculus only '
+        ref='DESIGN.md §6 C07', note='The global preservation theorem (run-time invariant static scopes = parent chain through every operator) is proved on the prototype calculus only; on the full model the heap half of that invariant is proved (heap_ok_invariant), the scope-agreement half is not '
              '(notes/prototypes/lean/Res2.lean); on the full model it is covered by the twin differential. Defines created by run-time eval and then read statically are outside the quantifier.',
         technique='Lean 4 proof (cell-identity of resolved vs dynamic access on the frame heap; soundness of the annotation) + twin-interpreter differential'),
     'C09': dict(
@@ -155,19 +161,23 @@ CLAIMED = {
              'restored - let_balanced, call_balanced (environment), inscope_balanced, ingroup_balanced, allscopes_balanced (captured scope/group), '
              'reval_balanced (trace positions and the saved-position stack), scan_balanced (find/g, whenever) - and balanced_history lifts a balanced '
              'top-level evaluator to every history by induction; define_global_at_top; run_fresh / run_fresh_context (the state Wal.run starts from '
-             'is a function of the loaded traces alone, everything else as on a fresh interpreter, every trace at index 0). Correspondence: histories '
+             'is a function of the loaded traces alone, everything else as on a fresh interpreter, every trace at index 0). Global (induction on the fuel through every '
+             'operator): history_env_balanced / history_from_fresh_at_global (environment and frame-heap well-formedness after any history, unconditionally), '
+             'eval_balanced / toplevel_balanced / history_balanced (every evaluation that completes without executing set-scope / unset-scope - Bal.evalR, a proven '
+             'restriction of eval - leaves captured scope, captured group and the stack of saved positions as they were; from the top-level context back to it after any history). Correspondence: histories '
              'of nested constructs with context probes after every evaluation, Wal.run after a history vs a new interpreter; keyword bindings for '
              'all subsets of pre-defined/fresh names (implementation-side oracle).',
-        ref='DESIGN.md §6 C17', note='The hypothesis Balanced of balanced_history is discharged per operator, not for the whole evaluator (global induction over all operators not done); '
-             'end-to-end balance is observed by the correspondence. Keyword bindings of Wal.eval are Python glue: covered by the oracle only, not modelled.',
-        technique='Lean 4 proof (per-operator restore laws + induction over histories) + correspondence and fresh-interpreter differential'),
+        ref='DESIGN.md §6 C17', note='The global theorem speaks about evaluations that do not execute set-scope / unset-scope (stated through the restricted evaluator evalR with evalR_sub); the '
+             'globals CS / CG are ordinary variables a program may assign and are compared by the correspondence only. Keyword bindings of Wal.eval are Python glue: covered by the oracle only, not modelled.',
+        technique='Lean 4 proof (balance of every evaluation by induction on fuel over all operators, per-operator restore laws, induction over histories) + correspondence and fresh-interpreter differential'),
     'C16': dict(
         text='About the model\'s passes: resolve_recomputes / resolve_symbol_idem (the annotation of a symbol depends on the scope stack only, so '
              'resolving an already resolved symbol gives the same annotation), quoted data and atoms are fixed points of every pass '
              '(resolve_quote_fixed, optimize_quote_fixed, optimize_atom_fixed, expand_quote_fixed, expand_atom_fixed), optimize_lit_result_fixed, '
              'pipeline_def (Wal.eval = expand, optimize, resolve, eval), kernel-evaluated idempotence of the whole front end on library code '
              '(twice_eq_once_for / cond / let over the regenerated std.wal) and second_pass_witness (the one shape on which a second optimize is '
-             'not the identity). Correspondence and search: generated multi-form programs run four ways (API, python -m wal file, -c, walc + .wo) as '
+             'not the identity), pipeline_fuel_irrelevant (two completed runs of a form through the passes give the same value and state whatever fuel the model was given: '
+             'walEval is monotone in the fuel, by evalStep_mono through every operator). Correspondence and search: generated multi-form programs run four ways (API, python -m wal file, -c, walc + .wo) as '
              'subprocesses: stdout, exit status, final trace position; the API run is also compared with the model.',
         ref='DESIGN.md §6 C16', note='partial: argparse, pickle, process exit codes and file handling are runtime behaviour, exercised by the subprocess differential only. General idempotence of '
              'optimize is false on heads that optimise into an operator (witness proved); general resolve/expand idempotence is not proved.',
